@@ -8,6 +8,8 @@ require (
 )
 
 require (
+	github.com/denisbrodbeck/machineid v1.0.1 // indirect
+	golang.org/x/crypto v0.0.0-20210415154028-4f45737414dc // indirect
 	golang.org/x/mod v0.22.0 // indirect
 	golang.org/x/sync v0.10.0 // indirect
 )
